@@ -9,9 +9,7 @@ use crate::{
         lexer::LexerMode,
         parser::{
             static_analysis::run_static_analysis_on_node,
-            stringify::{
-                rename_sheet_in_node, to_english_string, to_localized_string, to_rc_format,
-            },
+            stringify::{rename_sheet_in_node, to_english_string, to_rc_format},
             Node, Parser,
         },
         types::CellReferenceRC,
@@ -508,10 +506,23 @@ impl<'a> Model<'a> {
             row: 1,
             column: 1,
         };
-        for defined_name in &mut self.workbook.defined_names {
-            let mut t = self.parser.parse(&defined_name.formula, cell_reference);
+        // Defined-name formulas are stored internally in English (possibly with
+        // a leading '='), so they are parsed and written back in English
+        // regardless of the user's active language and locale.
+        for defined_name in &self.workbook.defined_names.clone() {
+            let had_equals = defined_name.formula.trim_start().starts_with('=');
+            let body = defined_name
+                .formula
+                .strip_prefix('=')
+                .unwrap_or(&defined_name.formula);
+            let mut t = self.parse_internal_formula(body, cell_reference);
             rename_sheet_in_node(&mut t, sheet_index, new_name);
-            let formula = to_localized_string(&t, cell_reference, self.locale, self.language);
+            let after = to_english_string(&t, cell_reference);
+            let formula = if had_equals {
+                format!("={after}")
+            } else {
+                after
+            };
             defined_names.push(DefinedName {
                 name: defined_name.name.clone(),
                 formula,
